@@ -14,7 +14,10 @@ import (
 type Call struct {
 	Store bool
 	Name  string
-	Bytes []byte // Store only
+	Bytes []byte // Store only: a copy taken when the call arrived
+	// Given is the very slice the caller handed to Store (a store may keep it - mast's own in-memory store does -
+	// so the caller must leave it alone afterwards)
+	Given []byte
 	Err   bool
 }
 
@@ -60,7 +63,7 @@ func (s *RecStore) Store(ctx context.Context, name string, b []byte) error {
 	s.mu.Lock()
 	defer s.mu.Unlock()
 	if s.record {
-		s.Calls = append(s.Calls, Call{Store: true, Name: name, Bytes: cp, Err: fail})
+		s.Calls = append(s.Calls, Call{Store: true, Name: name, Bytes: cp, Given: b, Err: fail})
 	}
 	if fail {
 		return ErrInjected
